@@ -36,6 +36,10 @@ Section C14.
     eval_mx env (ptx_prog n m k sp) *m eval_mx env (pxt_prog n m p k sp) = mask.
   Proof. by rewrite ptx_formula pxt_formula; exact: roundtrip_of. Qed.
 
+  Lemma mask_meaning_ i j :
+    mask i j = (if tol < S i 0 then 1 else 0) *+ (i == j).
+  Proof. by rewrite /retained_mask dmapE. Qed.
+
   Lemma mask_eq1 : (forall i, tol < S i 0) -> mask = 1%:M.
   Proof.
     move=> h; rewrite /retained_mask -(dmap_1 S); apply: dmap_ext => i.
@@ -142,3 +146,7 @@ Section C14.
     by [].
   Qed.
 End C14.
+
+Lemma mask_meaning (F : rcfType) (k : nat) (env : env_mx F) i j :
+  retained_mask k env i j = (if e_tol env < e_S k env i 0 then 1 else 0) *+ (i == j).
+Proof. exact: mask_meaning_. Qed.
